@@ -2,16 +2,21 @@
 
 Spec: spec/SerDes.tla (+ BitIOOps.tla for the bit level).  TLC (workers=1) explores every program of
 <= MaxLen SerDes calls (primitive fields, declare_list, subcontext_enter/leave up to MaxDepth,
-set_context_type, computed_value, bounded blocks, byte_align, verify_complete + a planted fault), merging
-states by the abstract bookkeeping state (VIEW), so every (bookkeeping state, call) transition is dumped
-once with a shortest program, the description TLC built for it (`obs.tree`) and the bits (`obs.bits`).
-G: each program is run on the real Serialiser (over the TLC-built description, perturbed by the fault)
+set_context_type, computed_value, bounded blocks, byte_align, verify_complete + a planted fault + the form
+the description is given in), merging states by the abstract bookkeeping state (VIEW: index maps, stacks,
+dictionary types of the whole description, bit phase, block counter), so every (bookkeeping state, call)
+transition is dumped once with a shortest program, the description TLC built for it (`obs.tree`), the
+description as handed to the Serialiser (`gtree`: typed / all plain dicts / fixeddict types exchanged) and
+the bits (`obs.bits`).  Two configurations run concurrently: mc/SerDes.cfg (the whole alphabet, short
+programs) and mc/SerDesLists.cfg (lists of typed subcontexts, longer programs).
+G: each program is run on the real Serialiser (over the TLC-built given description, perturbed by the fault)
    and on the real Deserialiser (over the bytes); descriptions are compared including dictionary types.
 T: not built; the thorough tier instead replays TLC -simulate random walks (depth 15, nesting 3).
 
 Alarm clauses (the statement of C21):
   roundtrip     deserialise(serialise(d)) != d (values, structure or dictionary types), or one of the two fails
-  unused        a description with an unused value / list item serialises without an exception
+  unused        a description with an unused value / list item / a non-list value (truthy or falsy) provided
+                for a declared list target serialises without an exception
   missing       a description lacking a needed value / list item (no default for its context type) serialises
   default       a value supplied through default_values[type(context)] is not used / is used for the wrong type
   overwrite     a target used twice is not rejected with ReusedTargetError by the deserialiser
@@ -164,11 +169,33 @@ def navigate(d, path):
     return node
 
 
-def plant(d, fault, site):
+def nonlist_value(tag):
+    """concretisation of the abstract non-list values of SerDes.tla (NonListVals)"""
+    m = M()
+    table = {
+        "int7": lambda: 7,
+        "str1": lambda: "x",
+        "tuple1": lambda: (1,),
+        "dict1": lambda: {"k": 1},
+        "int0": lambda: 0,
+        "false": lambda: False,
+        "none": lambda: None,
+        "str0": lambda: "",
+        "bytes0": lambda: b"",
+        "dict0": lambda: {},
+        "tuple0": lambda: (),
+        "float0": lambda: 0.0,
+        "bits0": lambda: m["bitarray"](),
+    }
+    return table[tag]()
+
+
+def plant(d, fault, site, last=None):
     """perturb description d (a deep copy) at the site chosen by TLC; returns (d, default_values)"""
     m = M()
     d = copy.deepcopy(d)
     defaults = {}
+    last = last or {}
     if fault == "none":
         return d, defaults
     ctx = navigate(d, site["path"])
@@ -181,11 +208,13 @@ def plant(d, fault, site):
         ctx[t].append(1)
     elif fault == "listshort":
         ctx[t].pop()
+    elif fault == "nonlist":
+        ctx[t] = nonlist_value(last["val"])
     elif fault == "default":
-        defaults = {type(ctx): {t: ctx.pop(t)}}
+        # registered for the type the context has when the target is used (computed by the spec)
+        defaults = {m["TYPES"][last["deftyp"]]: {t: ctx.pop(t)}}
     elif fault == "defaultwrongtype":
-        other = [T for T in m["TYPES"].values() if T is not type(ctx)][0]
-        defaults = {other: {t: ctx.pop(t)}}
+        defaults = {m["TYPES"][last["wrongtyp"]]: {t: ctx.pop(t)}}
     else:
         raise RuntimeError("unknown fault %r" % fault)
     return d, defaults
@@ -235,7 +264,16 @@ def replay_state(st):
 
     # a program without errors (possibly closed by verify_complete, possibly with a planted fault)
     full_ops = ops
-    din, defaults = plant(d, fault, site) if fault != "none" else (copy.deepcopy(d), {})
+    is_verify = last["o"]["op"] == "verify"
+    given = last.get("given", "typed") if is_verify else "typed"
+    # the description in the form it is handed to the Serialiser (typed / plain dicts / types exchanged): built by TLC
+    dgiven = concretise(last["gtree"]) if is_verify and "gtree" in last else copy.deepcopy(d)
+    din, defaults = plant(dgiven, fault, site, last)
+    experr = last.get("experr", "none") if is_verify else "none"
+
+    def desc():  # noqa
+        return "program %s on %r (given %s: %r)" % ([(o["op"], o["t"], o["kind"], o["v"]) for o in ops], d, given, dgiven)
+
     f = io.BytesIO()
     wr = bio.BitstreamWriter(f)
     ser = sdm.Serialiser(wr, din, defaults)
@@ -246,23 +284,25 @@ def replay_state(st):
     must_fail = bool(last.get("serfails")) if last["o"]["op"] == "verify" else False
     unclosed = last["o"]["op"] == "verify" and last["err"] != "none"
     if tree_bad:
-        viol.append(("C21|tree|serialiser", "%s: after call %d the root description does not hold the current context at the cursor path %r" % (desc(), i, ser.path())))
+        viol.append(("C21|tree|serialiser", "%s: after call %d the root description does not hold the current context at the cursor path %r (root %r)" % (desc(), i, ser.path(), ser.context)))
         return {"violations": viol, "dis": dis, "evals": evals}
-    if fault in ("extra", "listlong"):
+    if fault != "none" and must_fail:
+        # the spec (MustFail) says that serialising this description fails
+        clause = {"extra": "unused", "listlong": "unused", "nonlist": "unused", "missing": "missing", "listshort": "missing", "defaultwrongtype": "default"}[fault]
         if err == "none":
-            viol.append(("C21|unused|%s" % fault, "%s with %s planted at %s serialised without an exception" % (desc(), fault, site)))
-        elif err != "UnusedTargetError":
-            dis += 1
-        return {"violations": viol, "dis": dis, "evals": evals}
-    if fault in ("missing", "listshort", "defaultwrongtype"):
-        if err == "none":
-            viol.append(("C21|%s|%s" % ("missing" if fault != "defaultwrongtype" else "default", fault), "%s with %s planted at %s serialised without an exception" % (desc(), fault, site)))
-        elif err not in ("KeyError", "ListTargetExhaustedError"):
+            what = "%s with %s planted at %s" % (desc(), fault, site)
+            if fault == "nonlist":
+                what = "%s with the non-list value %r provided for the list target at %s" % (desc(), nonlist_value(last["val"]), site)
+            viol.append(("C21|%s|%s" % (clause, fault), "%s serialised without an exception" % what))
+        elif err != experr:
             dis += 1
         return {"violations": viol, "dis": dis, "evals": evals}
     if unclosed:
         if err != last["err"] or i != len(full_ops) - 1:
             dis += 1
+        elif fault == "none" and not same(ser.context, d):
+            # every call before verify_complete succeeded: the description must be the one the spec built
+            viol.append(("C21|tree|serialiser-description-changed", "%s: after the program (verify_complete: %s), the serialiser's description is %r" % (desc(), err, ser.context)))
         return {"violations": viol, "dis": dis, "evals": evals}
     if err != "none":
         viol.append(("C21|%s|serialiser-failed|%s" % ("default" if fault == "default" else "roundtrip", err), "%s: serialiser raised %s at call %s (fault %s)" % (desc(), err, i, fault)))
@@ -284,30 +324,81 @@ def replay_state(st):
 
 
 _HDR = c20._HDR
+_VARS = ("hist", "obs")
+
+
+def parse_block(block):
+    """only the variables the replay needs (hist, obs) are parsed: the others are 2/3 of the dump"""
+    st = {}
+    ms = list(tlaval._VAR.finditer(block))
+    for j, m_ in enumerate(ms):
+        if m_.group(1) in _VARS:
+            end = ms[j + 1].start() if j + 1 < len(ms) else len(block)
+            st[m_.group(1)] = tlaval.parse(block[m_.end() : end])
+    if set(st) != set(_VARS):
+        raise RuntimeError("dumped state without %s: %r" % (_VARS, block[:200]))
+    return st
 
 
 def case_of(st):
     return {"hist": tlaval.to_jsonable(st["hist"]), "obs": tlaval.to_jsonable(st["obs"])}
 
 
-def work_chunk(arg):
-    path, a, b = arg
-    M()
-    with open(path) as fh:
-        fh.seek(a)
-        text = fh.read(b - a)
+def typed_entries(tv):
+    """largest number of non-dict subcontext entries held by one list of the (tagged) description"""
+    if tv["k"] == "l":
+        here = sum(1 for x in tv["items"] if x["k"] == "c" and x["typ"] != "dict")
+        return max([here] + [typed_entries(x) for x in tv["items"]])
+    if tv["k"] == "c":
+        return max([0] + [typed_entries(x) for x in (tv["m"] or {}).values()])
+    return 0
+
+
+PROBES = ("extra", "listlong", "reuse", "settype_list", "settype_plain", "roundtrip", "nonlist_falsy", "nonlist_truthy", "two_typed_entries_plain")
+FALSY = ("int0", "false", "none", "str0", "bytes0", "dict0", "tuple0", "float0", "bits0")
+
+
+def probe_kinds(st):
+    """which self-test probe roles this dumped history can play"""
+    h = st["hist"]
+    last = h[-1]
+    out = []
+    if last["o"]["op"] == "verify" and last["err"] == "none":
+        if last["fault"] in ("extra", "listlong") and last["given"] == "typed":
+            out.append(last["fault"])
+        if last["fault"] == "nonlist":
+            out.append("nonlist_falsy" if last["val"] in FALSY else "nonlist_truthy")
+        if last["fault"] == "none" and last["given"] == "typed" and any(x["o"]["op"] == "prim" for x in h):
+            out.append("roundtrip")
+    if last["o"]["op"] == "verify" and last["fault"] == "none" and last["given"] == "plain" and typed_entries(st["obs"]["tree"]) >= 2:
+        out.append("two_typed_entries_plain")
+    if last["err"] == "ReusedTargetError" and last["o"]["op"] == "prim":
+        out.append("reuse")
+    if last["o"]["op"] == "set_type" and last["o"]["kind"] != "dict" and len(h) >= 2 and last["depth"] >= 1:
+        ent = [x["o"] for x in h if x["o"]["op"] == "enter"]
+        if ent:
+            out.append("settype_list" if ent[-1]["t"] == "m" else "settype_plain")
+    return out
+
+
+def new_tot():
+    return {"n": 0, "nontrivial": 0, "evals": 0, "dis": 0, "viol": [], "ops": {}, "samples": {}, "empty": 0, "faults": {}, "givens": {}, "probes": {}, "multi_typed": 0, "maxlen": 0}
+
+
+def work_text(text, probes=True):
     hdrs = list(_HDR.finditer(text))
-    out = {"n": 0, "nontrivial": 0, "evals": 0, "dis": 0, "viol": [], "ops": {}, "samples": [], "empty": 0, "faults": {}}
+    out = new_tot()
     for j, h in enumerate(hdrs):
         end = hdrs[j + 1].start() if j + 1 < len(hdrs) else len(text)
         block = text[h.end() : end].split("\n=====")[0]
-        st = tlaval.parse_state_block(block)
+        st = parse_block(block)
         if not st["hist"]:
             out["empty"] += 1
             continue
         res = replay_state(st)
         out["n"] += 1
         out["nontrivial"] += 1 if len(st["hist"]) >= 3 else 0
+        out["maxlen"] = max(out["maxlen"], len(st["hist"]))
         out["evals"] += res["evals"]
         out["dis"] += res["dis"]
         last = st["hist"][-1]
@@ -316,39 +407,110 @@ def work_chunk(arg):
         if key == "verify":
             fk = "%s/%s" % (last["fault"], last["err"])
             out["faults"][fk] = out["faults"].get(fk, 0) + 1
+            out["givens"][last["given"]] = out["givens"].get(last["given"], 0) + 1
+            if last["given"] != "typed" and typed_entries(st["obs"]["tree"]) >= 2:
+                out["multi_typed"] += 1
+            skey = None
+            if last["err"] == "none" and len(st["hist"]) >= 4:
+                skey = "nonlist" if last["fault"] == "nonlist" else last["given"] if last["fault"] == "none" else None
+            if skey and skey not in out["samples"]:
+                out["samples"][skey] = case_of(st)
         if res["violations"] and len(out["viol"]) < 40:
             c = case_of(st)
             for sig, what in res["violations"]:
                 out["viol"].append((sig, what, c))
-        if len(out["samples"]) < 1 and key == "verify" and last["err"] == "none" and len(st["hist"]) >= 4:
-            out["samples"].append(case_of(st))
+        if probes:
+            for k in probe_kinds(st):
+                if k not in out["probes"]:
+                    out["probes"][k] = case_of(st)
     return out
 
 
+def work_chunk(arg):
+    path, a, b = arg
+    M()
+    with open(path) as fh:
+        fh.seek(a)
+        text = fh.read(b - a)
+    return work_text(text)
+
+
 def work_simfile(path):
+    M()
     with open(path) as fh:
         text = fh.read()
     hdrs = list(_HDR.finditer(text))
     if not hdrs:
-        return {"n": 0, "nontrivial": 0, "evals": 0, "dis": 0, "viol": [], "ops": {}, "samples": [], "empty": 1, "faults": {}}
-    a = hdrs[-1].start()
-    return work_chunk((path, a, len(text)))
+        out = new_tot()
+        out["empty"] = 1
+        return out
+    return work_text(text[hdrs[-1].start() :], probes=False)
 
 
 def merge(parts):
-    tot = {"n": 0, "nontrivial": 0, "evals": 0, "dis": 0, "viol": [], "ops": {}, "samples": [], "empty": 0, "faults": {}}
+    tot = new_tot()
     for p in parts:
-        for k in ("n", "nontrivial", "evals", "dis", "empty"):
+        for k in ("n", "nontrivial", "evals", "dis", "empty", "multi_typed"):
             tot[k] += p[k]
+        tot["maxlen"] = max(tot["maxlen"], p["maxlen"])
         tot["viol"] += p["viol"]
-        tot["samples"] += p["samples"][:1]
-        for key in ("ops", "faults"):
+        for key in ("samples", "probes"):
+            for k, v in p[key].items():
+                tot[key].setdefault(k, v)
+        for key in ("ops", "faults", "givens"):
             for k, v in p[key].items():
                 tot[key][k] = tot[key].get(k, 0) + v
     return tot
 
 
+def chunk_offsets(path, nchunks):
+    """byte ranges of ~nchunks groups of dumped states (the dump is ASCII, so offsets = characters)"""
+    with open(path, "rb") as fh:
+        data = fh.read()
+    starts = [m_.start() for m_ in re.finditer(rb"^State \d+:", data, re.M)]
+    if not starts:
+        return []
+    step = max(1, len(starts) // nchunks + 1)
+    cuts = starts[::step] + [len(data)]
+    return [(path, cuts[i], cuts[i + 1]) for i in range(len(cuts) - 1)]
+
+
 CFG = "mc/SerDes.cfg"
+CFG_LISTS = "mc/SerDesLists.cfg"
+# single-worker TLC (VIEW + length-bounded hist needs strict BFS); few GC threads because the box is shared, but the
+# optimising JIT stays on (C1-only made these 20-100 s runs 2-3 times slower)
+# -Dtlc2.value.Values.width: TLC pretty-prints every dumped value to 80 columns, which is 70 % of a dumping run; a
+# huge width puts each variable on one line (3 times faster, and faster to parse)
+JVM_ENV = {"JAVA_TOOL_OPTIONS": "-XX:ParallelGCThreads=2 -Xss64m -Dtlc2.value.Values.width=100000000"}
+
+
+def tlc_jobs(jobs):
+    """Run several single-worker TLC jobs concurrently (threads); jobs = [(module, cfg text, kwargs)].
+    Generator: yields the results in the order given, each as soon as it is there, so that the caller can
+    replay one dump while TLC still works on the next."""
+    import threading
+
+    out = [None] * len(jobs)
+
+    def one(i):
+        mod, cfg, kw = jobs[i]
+        try:
+            out[i] = tlc.run(mod, cfg, workers=1, env=JVM_ENV, **kw)
+        except BaseException as e:  # noqa
+            out[i] = e
+
+    ths = [threading.Thread(target=one, args=(i,)) for i in range(len(jobs))]
+    for t in ths:
+        t.start()
+    try:
+        for i, t in enumerate(ths):
+            t.join()
+            if isinstance(out[i], BaseException):
+                raise out[i]
+            yield out[i]
+    finally:
+        for t in ths:
+            t.join()
 
 
 # ------------------------------------------------------------------------------ binding self-test
@@ -404,6 +566,31 @@ def selftest_G(states):
         return f
 
     probe("set_context_type forgets to update the parent", "set_context_type", bad_settype)
+
+    def last_slot(orig):
+        def f(self, context_type):
+            if type(self.cur_context) is not context_type:
+                self.cur_context = context_type(self.cur_context)
+                if self._context_stack:
+                    parent, target = self._context_stack[-1], self._target_stack[-1]
+                    if self._context_indices_stack[-1][target] is True:
+                        parent[target] = self.cur_context
+                    else:
+                        parent[target][-1] = self.cur_context
+
+        return f
+
+    probe("set_context_type puts the converted entry into the last slot of the list", "set_context_type", last_slot)
+
+    def truthy_declare(orig):
+        def f(self, target):
+            if target not in self._cur_context_indices and not self.cur_context.get(target):
+                self.cur_context[target] = []
+            return orig(self, target)
+
+        return f
+
+    probe("declare_list replaces a falsy provided value by []", "declare_list", truthy_declare)
     return fired
 
 
@@ -412,17 +599,24 @@ def run(ctx):
     M()
     c20.M()
     const = {"MaxLen": ctx.pick(4, 5), "MaxDepth": 2}
-    jobs = [("SerDes", c20.cfg_text(CFG, MaxLen=const["MaxLen"]), {"dump": True})]
-    res = c20.tlc_parallel(jobs)[0]
-    ctx.add_tlc(res, "programs (exhaustive over abstract transitions)", const)
-    parts = common.pmap(work_chunk, c20.chunk_offsets(res.dump_path, 128), chunksize=1)
-    tot = merge(parts)
-    if tot["n"] + tot["empty"] != res.distinct or tot["empty"] != 1:
-        raise RuntimeError("dump yielded %d histories + %d initial states for %d distinct states" % (tot["n"], tot["empty"], res.distinct))
-    tots = [tot]
+    const_l = {"MaxLen": ctx.pick(8, 11), "MaxDepth": 2}
+    jobs = [
+        ("SerDes", c20.cfg_text(CFG, **const), {"dump": True}),
+        ("SerDes", c20.cfg_text(CFG_LISTS, **const_l), {"dump": True, "coverage": False}),  # the longer run: no per-action statistics
+    ]
+    tlc.scratch_root()  # created here, not concurrently by the two threads
+    names = ["programs, whole alphabet (exhaustive over abstract transitions)", "programs, lists of typed subcontexts (exhaustive over abstract transitions)"]
+    tots = []
+    for r, name, cst in zip(tlc_jobs(jobs), names, (const, const_l)):
+        ctx.add_tlc(r, name, cst)
+        t = merge(common.pmap(work_chunk, chunk_offsets(r.dump_path, 96), chunksize=1))
+        if t["n"] + t["empty"] != r.distinct or t["empty"] != 1:
+            raise RuntimeError("dump yielded %d histories + %d initial states for %d distinct states" % (t["n"], t["empty"], r.distinct))
+        tots.append(t)
+    tot = merge(tots)
     sims = 0
     if not ctx.quick:
-        sim = tlc.run("SerDes", c20.cfg_text(CFG, MaxLen=14, MaxDepth=3), simulate=8000, depth=15, seed=ctx.seed, workers=1, env=c20.JVM_ENV)
+        sim = tlc.run("SerDes", c20.cfg_text(CFG, MaxLen=14, MaxDepth=3), simulate=8000, depth=15, seed=ctx.seed, workers=1, env=JVM_ENV)
         files = sorted(glob.glob(os.path.join(sim.sim_dir, "tr*")))
         stot = merge(common.pmap(work_simfile, files))
         sims = stot["n"]
@@ -430,70 +624,53 @@ def run(ctx):
     alltot = merge(tots)
     for sig, what, case in alltot["viol"]:
         ctx.violation(sig, what, case)
-    # probe programs for the self-test: a handful of dumped states covering faults, reuse and set_type in lists
-    probe_states = pick_probe_states(res.dump_path)
+    # vacuity: every fault kind, every given form, lists of >= 2 typed entries given untyped
+    need = ["none/none", "extra/none", "missing/none", "listlong/none", "listshort/none", "default/none", "defaultwrongtype/none", "nonlist/none"]
+    lacking = [k for k in need if not tot["faults"].get(k)]
+    lacking += ["given " + g for g in ("typed", "plain", "swapped") if not tot["givens"].get(g)]
+    lacking += ["probe " + k for k in PROBES if k not in tot["probes"]]
+    if lacking or not tot["ops"].get("set_type") or not tot["ops"].get("leave") or not tots[1]["multi_typed"]:
+        raise RuntimeError("vacuous: no replayed history for %s (lists of >= 2 typed entries given untyped: %d)" % (lacking, tots[1]["multi_typed"]))
+    # probe programs for the self-test: dumped states covering faults, reuse, set_type in lists, non-list values
+    probe_states = [{"hist": c20._tup(c["hist"]), "obs": c20._tup(c["obs"])} for c in (tot["probes"][k] for k in PROBES)]
     fired = selftest_G(probe_states)
     tinfo = trace_direction(ctx)
-    need = ["none/none", "extra/none", "missing/none", "listlong/none", "listshort/none", "default/none", "defaultwrongtype/none"]
-    lacking = [k for k in need if not tot["faults"].get(k)]
-    if lacking or not tot["ops"].get("set_type") or not tot["ops"].get("leave"):
-        raise RuntimeError("vacuous: no replayed history for %s" % lacking)
     ctx.coverage.update(
         {
             "traces_validated_against_impl": alltot["n"] + tinfo["traces"],
             "replayed_histories": alltot["n"],
+            "replayed_histories_per_configuration": {"SerDes.cfg": tots[0]["n"], "SerDesLists.cfg": tots[1]["n"]},
+            "longest_program": {"SerDes.cfg": tots[0]["maxlen"], "SerDesLists.cfg": tots[1]["maxlen"]},
             "simulated_walks_replayed": sims,
             "evaluations": alltot["evals"] + tinfo["events"],
             "distinct_nontrivial": alltot["nontrivial"] + tinfo["traces"],
             "rule": "one shortest program per abstract transition (bookkeeping state, call) of SerDes.tla, run on the real Serialiser "
-            "(TLC-built description, TLC-chosen fault) and Deserialiser; evaluations = SerDes method calls executed; non-trivial = program of >= 3 calls, or a recorded random trace",
+            "(TLC-built description in the TLC-chosen form, TLC-chosen fault) and Deserialiser; evaluations = SerDes method calls executed; non-trivial = program of >= 3 calls, or a recorded random trace",
             "exhaustive": True,
-            "bounds": dict(const, targets="a (plain), l (list), s (subcontext), m (list of subcontexts), c (computed), p/q (padding)", values="2 per primitive kind", types="dict + 2 fixeddict types"),
+            "bounds": {
+                "SerDes.cfg": dict(const, targets="a (plain), l (list), s (subcontext), m (list of subcontexts), c (computed), p/q (padding)", values="1-2 per primitive kind", types="dict + 2 fixeddict types"),
+                "SerDesLists.cfg": dict(const_l, alphabet="uint a, declare_list m, subcontext_enter m, subcontext_leave, set_context_type TA/TB; faults none/extra/listlong"),
+                "given_forms": "typed, plain dicts, fixeddict types exchanged",
+                "non_list_values": "7, 'x', (1,), {'k': 1} (truthy); 0, False, None, '', b'', {}, (), 0.0, bitarray() (falsy)",
+            },
             "transitions_per_action": alltot["ops"],
             "verify_transitions_by_fault_and_outcome": alltot["faults"],
+            "verify_transitions_by_given_form": alltot["givens"],
+            "verify_transitions_with_a_list_of_2_or_more_typed_entries_given_untyped": alltot["multi_typed"],
             "spec_disagreements": alltot["dis"] + tinfo["dis"],
             "binding_selftest": {"G": fired, "T": tinfo["selftest"]},
             "recorded_traces": tinfo["traces"],
             "recorded_events": tinfo["events"],
             "trace_kinds": tinfo["kinds"],
-            "samples": alltot["samples"][:3] + tinfo["samples"],
+            "samples": [alltot["samples"][k] for k in sorted(alltot["samples"])][:4] + tinfo["samples"],
         }
     )
     ctx.assumptions += [
-        "leaf values come from 2-element sets per kind in the exhaustive box (big values, widths and byte strings only in the trace direction)",
+        "leaf values come from 1-2 element sets per kind in the exhaustive box",
         "states are merged by the abstract bookkeeping state (VIEW): description values of the first program reaching a transition are used",
         "fault 'default' expects the deserialised description to contain the default (the Serialiser does not write defaults back into its input)",
-        "exhaustive TLC run uses -workers 1 (VIEW + length-bounded hist needs strict BFS)",
+        "exhaustive TLC runs use -workers 1 (VIEW + length-bounded hist needs strict BFS); the two configurations run concurrently",
     ]
-
-
-def pick_probe_states(dump_path):
-    want = {"extra": None, "listlong": None, "reuse": None, "settype_list": None, "settype_plain": None, "roundtrip": None}
-    for st in tlaval.iter_dump(dump_path):
-        h = st["hist"]
-        if not h:
-            continue
-        last = h[-1]
-        ops = [x["o"]["op"] for x in h]
-        if last["o"]["op"] == "verify" and last["err"] == "none":
-            if last["fault"] in ("extra", "listlong") and want[last["fault"]] is None:
-                want[last["fault"]] = st
-            if last["fault"] == "none" and want["roundtrip"] is None and "prim" in ops:
-                want["roundtrip"] = st
-        if last["err"] == "ReusedTargetError" and last["o"]["op"] == "prim" and want["reuse"] is None:
-            want["reuse"] = st
-        if last["o"]["op"] == "set_type" and last["o"]["kind"] != "dict" and len(h) >= 2:
-            ent = [x["o"] for x in h if x["o"]["op"] == "enter"]
-            if ent and last["depth"] >= 1:
-                key = "settype_list" if ent[-1]["t"] == "m" else "settype_plain"
-                if want[key] is None:
-                    want[key] = st
-        if all(v is not None for v in want.values()):
-            break
-    missing = [k for k, v in want.items() if v is None]
-    if missing:
-        raise RuntimeError("no probe program for %s in the dump" % missing)
-    return list(want.values())
 
 
 def replay(case):
